@@ -52,7 +52,7 @@ theorem lookupP_mem {tbl : List (Nat × Prim)} {g : Nat} {p : Prim} (h : lookupP
     · simp only [hk, if_false] at h; simp [ih h]
 
 theorem rwFold_sound (tbl : List (Nat × Prim)) : LocalSoundQ (PrimQ tbl) (rwFold tbl) := by
-  intro fuel self tail e env caps σ r hq h hr
+  intro fuel self tail e env caps σ r hq hor h hr
   unfold rwFold
   split
   · rename_i g a b
